@@ -182,6 +182,46 @@ theorem resize_step_safe {e : Emu} {rows cols : Nat} (h : EmuInv e rows cols) (d
   unfold emuStep emuStepF
   simp only [he, bind, Except.bind]
 
+/-- F112c repaired (aefad78): a resize leaves the pen alone — for EVERY old state (no invariant needed),
+    every size, whatever the reflow re-prints. (Before the repair the pen was the style of the last
+    reflowed cell: `resize_clobbered_pen` below.) -/
+theorem resize_preserves_pen {e e' : Emu} {w h : Int} (hr : resize Fixes.current e w h = .ok e') :
+    e'.cur.st = e.cur.st := by
+  rw [resize_eq] at hr
+  split at hr
+  · cases hr
+  · cases hq : reflow Fixes.current e.cur.row e.primary 0 (resizeInit e w h) with
+    | error p => rw [hq] at hr; cases hr
+    | ok e1 => rw [hq] at hr; cases hr; rfl
+
+/-- … and so does every step `resize` of the machine. -/
+theorem resize_step_preserves_pen {e : Emu} {w h : Int} {r : Emu × Nat}
+    (hr : emuStep e (.resize w h) = .ok r) : r.1.cur.st = e.cur.st := by
+  unfold emuStep emuStepF at hr
+  cases hq : resize Fixes.current e w h with
+  | error p => simp only [hq, bind, Except.bind] at hr; cases hr
+  | ok e1 =>
+    simp only [hq, bind, Except.bind] at hr
+    cases hr
+    exact resize_preserves_pen hq
+
+/-- The F112c scenario (corpus/C05/F112c-resize-pen.ops): 4×2, `SGR 44`, `abcd`, CR, LF, `SGR 0`,
+    resize to 5×2. With the repair switched off the pen after the resize has background index 4; the
+    current code keeps the default pen. -/
+def f112cOps : List EOp :=
+  [.csi [109] [(44, [])], .print [97] 1, .print [98] 1, .print [99] 1, .print [100] 1, .c0 13, .c0 10, .csi [109] []]
+
+theorem resize_clobbered_pen :
+    (match Emu.new Fixes.current 4 2 with
+     | .ok e0 =>
+       (match runOps e0 f112cOps with
+        | .ok e1 =>
+          (match resize { Fixes.current with f112c := false } e1 5 2, resize Fixes.current e1 5 2 with
+           | .ok before, .ok now => decide (e1.cur.st = {} ∧ before.cur.st.bg = indexColor 4 ∧ now.cur.st = {})
+           | _, _ => false)
+        | .error _ => false)
+     | .error _ => false) = true := by decide +kernel
+
 theorem emu_safe_step {e : Emu} (hg : Good e) (op : EOp) (hop : OpOk op) :
     ∃ r, emuStep e op = .ok r ∧ Good r.1 := by
   obtain ⟨rows, cols, h, d⟩ := hg
